@@ -434,6 +434,38 @@ theorem slow_refresh_bound_thread (c : Consts) (env : Env) (hq : Quiet env) (D E
   rw [run_σ_indep]
   exact h
 
+/-- **the bounds, from the state a thread really starts in.**  For a thread whose modules carry fresh `PollInfo`s
+(`startMod`: `interval = pollinterval`, `last_main = last_slow = 0`, as `PollInfo.__init__` leaves them) started at a
+clock later than every poll interval (the clock is the time since 1970) with slow intervals `> 0` (the datatype's
+lower limit), in every quiet bounded environment and for any number of turns: the specification's main-poll clause
+holds with one sweep `= sweepBound n D E`, and every polled parameter is refreshed within `slowBound` — no further
+hypothesis about the state. -/
+theorem bounds_from_thread_start (c : Consts) (env : Env) (hq : Quiet env) (D E : Nat) (hb : Bounded env D E)
+    (clock : Nat) (decl : List (Bool × Nat × List Nat × Nat)) (stamp : Nat → Nat → Nat)
+    (hiv : ∀ d ∈ decl, d.2.2.2 < clock) (hslow : ∀ d ∈ decl, 0 < d.2.1) (k : Nat) :
+    let σ := startState clock (decl.map fun d => startMod d.1 d.2.1 d.2.2.1 d.2.2.2) stamp
+    MainGapBoundS (sweepBound σ.mods.length D E)
+      (traceOf σ (thread c env k σ).evs (prologue c env σ).σ.clock (thread c env k σ).σ.clock E) ∧
+    ∀ (i p : Nat) (m : Mod), σ.mods[i]? = some m → m.enabled = true → p ∈ m.polled →
+      (thread c env k σ).σ.clock ≤
+        max ((thread c env k σ).σ.refreshed i p) (prologue c env σ).σ.clock +
+          slowBound m.slow (allEntries 0 σ.mods).length σ.mods.length D E := by
+  intro σ
+  have hget : ∀ (i : Nat) (m : Mod), σ.mods[i]? = some m →
+      ∃ d ∈ decl, m = startMod d.1 d.2.1 d.2.2.1 d.2.2.2 := by
+    intro i m hm
+    simp only [σ, startState, List.getElem?_map, Option.map_eq_some_iff] at hm
+    obtain ⟨d, hd, rfl⟩ := hm
+    exact ⟨d, List.mem_of_getElem? hd, rfl⟩
+  constructor
+  · apply main_gap_bound_spec c env hq D E hb σ
+    intro i m hm _
+    obtain ⟨d, hd, rfl⟩ := hget i m hm
+    exact ⟨Nat.le_refl _, by simpa [startMod, σ, startState] using hiv d hd⟩
+  · intro i p m hm he hp
+    obtain ⟨d, hd, rfl⟩ := hget i m hm
+    exact slow_refresh_bound_thread c env hq D E hb σ i p _ hm he hp (hslow d hd) (Nat.zero_le _) (Nat.le_refl _) rfl k
+
 /-- **the ghost means what it says.**  `refreshed i p` changes in two places only, and each time to the moment of a
 genuine refresh: at the start of a call it becomes the clock iff the call is `read_p` of module `i`; a time stamp
 given to `(i, p)` makes it that stamp; in both cases only if that is later than what it was.  Clock reads, waits,
@@ -538,6 +570,15 @@ example : MainGapBoundS (sweepBound 3 3 1)
 example : ¬ MainGapBoundS 0
     (traceOf exState (thread exConsts exEnv 30 exState).evs (prologue exConsts exEnv exState).σ.clock
       (thread exConsts exEnv 30 exState).σ.clock 1) := by decide
+
+/-- `bounds_from_thread_start` on a thread of two polled modules and one that is only written, started at clock 1000 -/
+example :
+    let σ := startState 1000 ([(true, 40, [0, 1], 10), (true, 60, [2], 25), (false, 50, [], 7)].map
+      fun d => startMod d.1 d.2.1 d.2.2.1 d.2.2.2) (fun _ _ => 0)
+    MainGapBoundS (sweepBound σ.mods.length 3 1)
+      (traceOf σ (thread exConsts exEnv 30 σ).evs (prologue exConsts exEnv σ).σ.clock (thread exConsts exEnv 30 σ).σ.clock 1) :=
+  (bounds_from_thread_start exConsts exEnv exEnv_quiet 3 1 exEnv_bounded 1000 _ (fun _ _ => 0)
+    (by decide) (by decide) 30).1
 
 /-- `due_polled_this_turn` / `not_due_not_polled` on the first turn after start-up: module 1 is due and polled -/
 example : ∃ t, startsOf (turn exConsts exEnv (prologue exConsts exEnv exState).σ).evs 1 = [t] :=
